@@ -7,6 +7,7 @@ import (
 	"io"
 	"net"
 	"sync"
+	"sync/atomic"
 	"time"
 )
 
@@ -23,6 +24,7 @@ type Conn struct {
 	name   string
 	once   sync.Once
 	remote addr
+	self   atomic.Bool // Close was called on THIS end (as opposed to the peer's Close closing both halves)
 }
 
 type addr string
@@ -68,6 +70,7 @@ func (c *Conn) Write(p []byte) (int, error) {
 
 // Close closes both directions (like a TCP close seen by both sides).
 func (c *Conn) Close() error {
+	c.self.Store(true)
 	c.once.Do(func() {
 		for _, h := range []*half{c.rd, c.wr} {
 			h.mu.Lock()
@@ -106,3 +109,17 @@ func (c *Conn) RemoteAddr() net.Addr               { return c.remote }
 func (c *Conn) SetDeadline(t time.Time) error      { return nil }
 func (c *Conn) SetReadDeadline(t time.Time) error  { return nil }
 func (c *Conn) SetWriteDeadline(t time.Time) error { return nil }
+
+// ClosedBySelf reports whether Close was called on this very end. IsClosed cannot tell who closed:
+// either end's Close closes both halves (like a TCP close seen by both sides).
+func (c *Conn) ClosedBySelf() bool { return c.self.Load() }
+
+// CloseWrite closes only the direction this end writes into: the peer reads what is buffered and
+// then EOF, while it can still write (a half-close, like shutdown(SHUT_WR)).
+func (c *Conn) CloseWrite() {
+	h := c.wr
+	h.mu.Lock()
+	h.closed = true
+	h.cond.Broadcast()
+	h.mu.Unlock()
+}
